@@ -62,6 +62,7 @@ pub struct Case {
     pub client: Client,
     pub peeks: Vec<u8>,
     pub extra_calls: u8,
+    pub keep_tags: bool,
     pub tape: Vec<u32>,
     // C18 only
     pub bytes: Vec<u8>,
@@ -88,6 +89,7 @@ impl Default for Case {
             client: Client::Iterate,
             peeks: Vec::new(),
             extra_calls: 0,
+            keep_tags: false,
             tape: Vec::new(),
             bytes: Vec::new(),
             enc: String::new(),
@@ -154,6 +156,7 @@ impl Case {
                 j.set("client", J::str(&self.client.describe()));
                 j.set("peeks", J::Arr(self.peeks.iter().map(|p| J::int(*p)).collect()));
                 j.set("extra_calls", J::int(self.extra_calls));
+                j.set("keep_tags", J::Bool(self.keep_tags));
             }
         }
         j.set("tape", J::Arr(self.tape.iter().map(|p| J::int(*p)).collect()));
@@ -183,6 +186,7 @@ impl Case {
             c.peeks = a.iter().filter_map(J::as_i64).map(|v| v as u8).collect();
         }
         c.extra_calls = j.get("extra_calls").and_then(J::as_i64).unwrap_or(0) as u8;
+        c.keep_tags = j.get("keep_tags").and_then(J::as_bool).unwrap_or(false);
         if let Some(a) = j.get("tape").and_then(J::as_arr) {
             c.tape = a.iter().filter_map(J::as_i64).map(|v| v as u32).collect();
         }
